@@ -73,7 +73,7 @@ func genC17Step(rt *rapid.T, c *C17Case) C17Step {
 	common := func() []string {
 		var a []string
 		if rapid.IntRange(0, 2).Draw(rt, "haslimit") == 0 {
-			a = append(a, "--limit", strconv.Itoa(rapid.SampledFrom([]int{-1, 0, 1, 2, 3, 5, 100, 101}).Draw(rt, "limit")))
+			a = append(a, "--limit", strconv.Itoa(rapid.SampledFrom([]int{-1, 0, 1, 2, 3, 5, 100, 101, 1000000, 2147483648, 4611686018427387904, 9223372036854775807}).Draw(rt, "limit")))
 		}
 		if rapid.IntRange(0, 1).Draw(rt, "hasformat") == 0 {
 			a = append(a, "--format", rapid.SampledFrom([]string{"list", "table", "json", "JSON", "xml"}).Draw(rt, "format"))
